@@ -32,6 +32,10 @@ Failing(e) ==
        \* one hasher seed to the next, which a single-seed measurement cannot average out
        Cl("C07.bloomFalsePositiveFrequency: at most about 1.3 p (n >= 1000, 6-sigma margin on the probe sample)",
           e.n >= 1000 => e.bloom.fp <= Allowed(13, e.a, e.c, e.bloom.probes)) \cup
+       \* deterministic companion of the measured clause: the textbook rate (1 - e^(-kn/m))^k of the k and m the constructor
+       \* chose, computed by the harness in floating point and handed over as milli-nats (TLC has no exp / ln)
+       Cl("C07.bloomTheoreticalRate: (1 - e^(-kn/m))^k <= 1.3 p for the chosen k and m (n >= 50)",
+          e.n >= 50 => e.bloom.ln_rate_milli <= e.bloom.ln_bound_milli) \cup
        Cl("C07.bloomLenTracksDistinctInserts: within 10% + 10 for n >= 1000 while at most half the bits are set",
           (e.n >= 1000 /\ 2 * e.bloom.ones <= e.bloom.m) => (10 * e.bloom.len <= 11 * e.n + 100 /\ 10 * e.bloom.len + 100 >= 9 * e.n))) \cup
     CuckooClauses(e, e.ck4, "with_properties_4") \cup
